@@ -21,7 +21,7 @@ static const char *cfg_name(int c) { return c == 0 ? "PRE-OPERATIONAL" : "OPERAT
 
 static void build_alphabet(void)
 {
-    static const struct { uint16_t idx; uint8_t sub; uint32_t size; } EXTRA[] = { {0x2FFF, 0, 0}, {0x2030, 2, 0}, {0x1000, 0, 4}, {0x0000, 0, 0}, {0x1FFF, 0, 0} };
+    static const struct { uint16_t idx; uint8_t sub; uint32_t size; } EXTRA[] = { {0x2FFF, 0, 0}, {0xA030, 2, 0}, {0x1000, 0, 4}, {0x0000, 0, 0}, {0x1FFF, 0, 0} };
     int small = mc_opt("small", 0);
     NEV = 0;
     for (int c = 0; c < 256; c++) {
